@@ -3,15 +3,22 @@ import Model.Numscript.Spec
 import Lemmas.Syntax
 import Model.Numscript.VM
 import Lemmas.NumRun
+import Lemmas.NumRunEq
+import Lemmas.NumFront
 import Lemmas.NumCheck
 import Lemmas.NumBytecode
 import Generated.Opcodes
 /-! C08 — compiled programs do what the source says.
-`Spec.run` is the definition of "what the source text says".  What is proved here (growing):
-* rejection: a program the static rules reject is refused, never run (`rejected_not_run`);
+`Spec.run` is the definition of "what the source text says".  What is proved here:
+* rejection: a program the static rules reject is refused, never run (`rejected_not_run`, `compile_rejects`);
 * the compilation cache is transparent for every cache size and eviction policy (`cache_transparent`);
-* the compiler+VM model `compile_correct` is the planned next stage (DESIGN §5 C08) — until then the lift from
-  `Spec` to the bytecode VM rests on the end-to-end differential of `checks/c08.py`. -/
+* **`compile_correct`**: for the compiler model `Compile.compile` and the stack-machine model `VM.run` (tied to the Go
+  compiler and VM by the bytecode-equality and VM differentials of `checks/c08.py`), for EVERY program the compiler
+  accepts, every variable map and every store, running the bytecode — `SetVarsFromJSON`, `ResolveResources`,
+  `ResolveBalances`, `Execute`, metadata merge — gives exactly the postings, metadata and printed values (or the
+  error class) `Spec.run` gives, and no panic.  Side conditions (`Script.wellFormed`): at least one statement, lists
+  shorter than 2^64, no portion literal with a zero denominator — all three hold of everything the front end
+  produces, none is a restriction of the language. -/
 namespace C08
 open Num Cache
 
@@ -98,33 +105,26 @@ example : check ⟨[], [.print (.add (.num 1) (.str "x"))]⟩ = false := by deci
 
 /-! #### compiler correctness
 
-The FULL statement (not yet proved in this generality; tied by the differentials of `checks/c08.py`):
+Three statements, from the oldest to the strongest (all kept: none is weakened by the later ones).
 
-```
-theorem compile_correct (P : Script) (prog : Program) (hc : compile P = .ok prog) (req : Request) (store : Store) :
-    (VM.run prog req store).map VM.Result.obs = Outcome.ofExcept ((Spec.run P req store).map Result.obs)
--- obs = (postings, txMeta, acctMeta): for every program the language accepts, every variable map and every store,
--- running the compiled bytecode on the VM gives exactly what the source says (same postings, same metadata,
--- or the same class of error) and never panics.
-```
+`compile_correct_partial` — AFTER the VM's resolution stage succeeded (`hv`/`hr`/`hb`), `VM.run` is `Spec`'s
+statement semantics `evalStmts` under the environment read back from the resolved table, then `Spec.run`'s metadata
+merge, with the metadata and printed values equal AS VALUES (`BVal.ofVal`).  Fragment `Script.frag`: every statement
+of the language except a portion LITERAL as the value of `print` / `set_tx_meta` / `set_account_meta` (the compiler
+de-duplicates portion constants by `big.Rat` comparison, so the VM may hold `1/2` where the text says `2/4`: equal
+values is then too strong; equal TEXT is what `compile_correct` states), with the side conditions of
+`Script.wellFormed`.
 
-What IS proved, for the FRAGMENT `Script.frag`:
-statements `send [A n | A *] (source = S, destination = @x | $x)` with `S` built from accounts (with or without
-`allowing overdraft up to …` / `allowing unbounded overdraft`, `@world` included), `max … from S` and in-order
-lists `{ S … }`; `save … from`, `set_tx_meta`, `set_account_meta`, `print`, `fail`; no portion literal inside the
-expressions (a de-duplicated portion constant is equal only up to `ratEq`), lists shorter than 2^64.
+`resolution_stage_eq` — the resolution stage of the VM IS `Spec.prepare` + `checkBalanceVars` + `initBal`, for the
+whole language.  `compile_correct_frag` — end to end on `Script.frag`, no hypothesis on the resolution stage.
 
-`compile_correct_partial`: after the VM's resolution stage (`SetVarsFromJSON`, `ResolveResources`,
-`ResolveBalances`) succeeded, `VM.run` of the compiled program is `Spec`'s statement semantics `evalStmts`
-(the very function `Spec.run` uses) under the environment read back from the resolved resource table, followed
-by `Spec.run`'s metadata merge.  Not covered by the theorem: source and destination allotments, ordered
-destinations with `max`/`remaining`/`kept`; and the equivalence of the two RESOLUTION stages (`Spec.prepare` /
-`initBal` vs `SetVarsFromJSON`/`ResolveResources`/`ResolveBalances`) — both rest on the differentials. -/
+`compile_correct` — the FULL statement: end to end, the whole language. -/
 
-/-- **compiled code does what the source says (fragment)** — frame lemmas `expr_ok`, `source_ok`,
-`takeFromSource_ok`, `destAcct_ok`, `stmt_ok` of `Lemmas/Num{Frame,Stmt}.lean`: running `code(src)` from stack `S`
-and balances `B` ends with stack `funding :: S` and balances `B'`, nothing below `S` touched, and equals
-`Spec.evalSource`; likewise for destinations and whole statements. -/
+/-- **compiled code does what the source says (from the resolved state on, values equal)** — frame lemmas `expr_ok`,
+`source_ok`, `takeFromSource_ok` (`Lemmas/NumFrame.lean`, `NumStmt.lean`), `dest_ok` / `kd_ok` / `caps_ok` / `allot_ok`
+(`NumDest.lean`), `allotment_ok` (`NumAllot.lean`), `allotSources_ok`, `stmt_okQ` (`NumStmt.lean`): running `code(x)`
+from stack `S` and balances `B` ends with stack `v :: S`, nothing below `S` touched, and equals `Spec`'s evaluator;
+likewise for whole statements. -/
 theorem compile_correct_partial (P : Script) (prog : Program) (hc : compile P = .ok prog) (hfr : P.frag)
     (req : Request) (store : Store) (vars : List (String × BVal)) (R : VM.Resolved) (vals : List BVal) (B : VM.Balances)
     (hv : VM.setVarsFromJSON prog req.vars = .ok vars) (hr : VM.resolveResources prog vars store = .ok R)
@@ -141,7 +141,8 @@ theorem compile_correct_partial (P : Script) (prog : Program) (hc : compile P = 
   obtain ⟨cx, hE, hok⟩ := run_setup hc hv hr hb
   have hrel : Rel B.accts B.keys ({ balances := B } : VM.Machine) { st := { bal := B.bal, postings := [] } } :=
     ⟨rfl, rfl, rfl, rfl, rfl, rfl, rfl, hok⟩
-  have hex := execute_correct hc hfr cx hE _ _ hrel
+  have hp := vpos_of_resolved hc (frag_tablePos hc hfr) hv hr hb
+  have hex := execute_correct hc hfr cx hp hE _ _ hrel
   simp only [VM.run, hv, hr, hb]
   cases hev : evalStmts (envOf prog.resources vals) P.stmts { st := { bal := B.bal, postings := [] } } with
   | error er =>
@@ -176,6 +177,161 @@ example : Script.frag
       .saveMon (.mon (.asset "USD") 1) (.acct "a"),
       .setTxMeta "k" (.add (.num 1) (.num 2))]⟩ :=
   ⟨by simp, by intro s hs; simp at hs; rcases hs with rfl | rfl | rfl <;> rfl⟩
+
+/-! #### the resolution stage, and the end-to-end statement on the fragment -/
+
+/-- **the VM's resolution stage is `Spec`'s** — for EVERY compiled program (the whole language, no fragment
+hypothesis; `hpos`: no portion literal of the text has a zero denominator — the parser produces none), every variable
+map and every store.  `SetVarsFromJSON` / `ResolveResources` / `ResolveBalances` on the
+compiled program fail exactly when `Spec.prepare` (`bindPlain`, `resolveVars`) / `checkBalanceVars` fail, with the
+same error class (`invalid_vars`, `missing_metadata`, `resolve_error`, `negative_amount`; the first failing
+declaration wins on both sides, a negative `balance(…)` is reported only after every declaration resolved); and
+when they succeed, the resolved resource table is the value of every resource under `Spec`'s environment
+(`Ctx`) and the tracked balances are exactly `Spec`'s initial balances `initBal store (needed env stmts)` —
+`Program.NeededBalances`, resolved, is `Spec.needed` as a set (`Num.compile_needed`).
+Proof: `Lemmas/NumPrepare.lean` (`SetVarsFromJSON` = `bindPlain`), `Lemmas/NumSim.lean` (declaration-by-declaration
+simulation, pending `balance(…)` slots), `Lemmas/NumNeeded.lean`, `Lemmas/NumRunEq.lean`. -/
+theorem resolution_stage_eq (P : Script) (prog : Program) (hc : compile P = .ok prog)
+    (hpos : ∀ s ∈ P.stmts, s.litsPos = true) (req : Request) (store : Store) :
+    match prepare P req store with
+    | .error er => VM.run prog req store = .error er
+    | .ok env =>
+      match checkBalanceVars env P.vars with
+      | .error er => VM.run prog req store = .error er
+      | .ok _ => ∃ vars R V B, VM.setVarsFromJSON prog req.vars = .ok vars ∧ VM.resolveResources prog vars store = .ok R ∧
+          VM.resolveBalances prog R store = .ok (V, B) ∧ Ctx prog.resources V env ∧
+          B.bal = initBal store (needed env P.stmts) :=  by
+  have h := resolution_stage hc (compile_tablePos hc hpos) req store
+  cases hp : prepare P req store with
+  | error er => rw [hp] at h; exact h
+  | ok env =>
+    rw [hp] at h
+    simp only at h ⊢
+    cases hcb : checkBalanceVars env P.vars with
+    | error er => rw [hcb] at h; exact h
+    | ok u =>
+      rw [hcb] at h
+      obtain ⟨vars, R, V, B, h1, h2, h3, h4, _, h5, _⟩ := h
+      exact ⟨vars, R, V, B, h1, h2, h3, h4, h5⟩
+
+/-- **compiled programs do what the source says — end to end, on the fragment**: for every program of
+`Script.frag` that compiles, every variable map and every store, running the bytecode on the VM (variables,
+resources, balances, execution, metadata merge) gives exactly what `Spec.run` gives: the same postings, transaction
+metadata, account metadata and printed values, or the same class of error — and never a panic (the right-hand side
+has no panic alternative).  No hypothesis on the resolution stage is left. -/
+theorem compile_correct_frag (P : Script) (prog : Program) (hc : compile P = .ok prog) (hfr : P.frag)
+    (req : Request) (store : Store) :
+    (VM.run prog req store).map VM.Result.obs = VM.Outcome.ofExcept ((Num.run P req store).map Num.Result.obs) :=
+  run_eq hc (Script.frag2_of_frag hfr) req store
+
+/-- the side conditions of `compile_correct`: at least one statement (the grammar requires it; `Execute` reads
+`Instructions[0]`); every in-order source list and every allotment shorter than 2^64 (the count is an operand that
+travels through `big.Int.Uint64()` — a text that long cannot exist); no portion literal with a zero denominator
+(`big.Rat` has none, the parser produces none).  Everything the front end accepts satisfies them. -/
+def _root_.Num.Script.wellFormed (P : Script) : Prop := P.frag2
+
+/-- **compiled programs do what the source says** — the whole language.  For every program the compiler accepts
+(`hc`; `compile_rejects`: exactly the programs `check` accepts, size limits apart), every variable map and every
+store: running the compiled bytecode on the VM — `SetVarsFromJSON`, `ResolveResources`, `ResolveBalances`, `Execute`,
+`GetTxMetaJSON` / `GetAccountsMetaJSON`, the merge with the request's metadata — yields exactly the observations
+`Spec.run` yields (postings in order, transaction metadata, account metadata, printed values, the last three as the
+strings that are stored / written), or an error of exactly the same class; and, the right-hand side having no panic
+alternative, none of the VM's panic sites is reachable. -/
+theorem compile_correct (P : Script) (prog : Program) (hc : compile P = .ok prog) (hwf : P.wellFormed)
+    (req : Request) (store : Store) :
+    (VM.run prog req store).map VM.Result.obs = VM.Outcome.ofExcept ((Num.run P req store).map Num.Result.obs) :=
+  run_eq hc hwf req store
+
+/-- the fragment of the earlier statements satisfies the side conditions -/
+theorem wellFormed_of_frag (P : Script) (h : P.frag) : P.wellFormed := Script.frag2_of_frag h
+
+/-! non-vacuity: a program of the fragment (ordered capped source with a `@world` fallback, metadata) compiles,
+and both sides of `compile_correct_frag` are the two postings below (kernel evaluation of the compiler, the VM and
+`Spec`) -/
+def exFrag : Script :=
+  ⟨[], [.send (.mon (.mon (.asset "USD") 10))
+          (.src (.inorder (.cons (.maxed (.mon (.asset "USD") 4) (.acct (.acct "b") .none)) (.cons (.acct (.acct "world") .none) .nil))))
+          (.acct (.acct "alice")),
+        .setTxMeta "k" (.add (.num 1) (.num 2))]⟩
+def exStore : Store := ⟨fun a _ => if a = "b" then 3 else 0, fun _ _ => none⟩
+
+example : Script.frag exFrag := ⟨by simp [exFrag], by intro s hs; simp [exFrag] at hs; rcases hs with rfl | rfl <;> rfl⟩
+
+example : (match compile exFrag with
+    | .ok prog => (match VM.run prog ⟨[], []⟩ exStore with | .ok r => some r.obs | _ => none)
+    | .error _ => none) =
+    some ⟨[⟨"b", "alice", 3, "USD"⟩, ⟨"world", "alice", 7, "USD"⟩], [("k", "3")], [], []⟩ := by decide +kernel
+
+example : ((Num.run exFrag ⟨[], []⟩ exStore).map Num.Result.obs).toOption =
+    some ⟨[⟨"b", "alice", 3, "USD"⟩, ⟨"world", "alice", 7, "USD"⟩], [("k", "3")], [], []⟩ := by decide +kernel
+
+/-! … and an ordered destination with a capped account, a capped `kept` and a nested ordered `remaining` -/
+def exOrd : Script :=
+  ⟨[], [.send (.mon (.mon (.asset "USD") 10)) (.src (.acct (.acct "world") .none))
+          (.inorder (.cons (.mon (.asset "USD") 3) (.to (.acct (.acct "a"))) (.cons (.mon (.asset "USD") 2) .kept .nil))
+            (.to (.inorder (.cons (.mon (.asset "USD") 1) (.to (.acct (.acct "c"))) .nil) (.to (.acct (.acct "b"))))))]⟩
+
+example : Script.frag exOrd := ⟨by simp [exOrd], by intro s hs; simp [exOrd] at hs; subst hs; rfl⟩
+
+example : (match compile exOrd with
+    | .ok prog => (match VM.run prog ⟨[], []⟩ exStore with | .ok r => some r.obs | _ => none)
+    | .error _ => none) =
+    some ⟨[⟨"world", "a", 3, "USD"⟩, ⟨"world", "c", 1, "USD"⟩, ⟨"world", "b", 4, "USD"⟩], [], [], []⟩ := by decide +kernel
+
+example : ((Num.run exOrd ⟨[], []⟩ exStore).map Num.Result.obs).toOption =
+    some ⟨[⟨"world", "a", 3, "USD"⟩, ⟨"world", "c", 1, "USD"⟩, ⟨"world", "b", 4, "USD"⟩], [], [], []⟩ := by decide +kernel
+
+/-! … and destination allotments; the second one writes the same rational as `2/4`, which the compiler de-duplicates
+against the constant `1/2` of the first (only ONE portion constant is in the table): the shares are those of `Spec` -/
+def exAllot : Script :=
+  ⟨[], [.send (.mon (.mon (.asset "USD") 7)) (.src (.acct (.acct "world") .none))
+          (.allot (.cons (.const ⟨1, 2⟩) (.to (.acct (.acct "a"))) (.cons .remaining (.to (.acct (.acct "b"))) .nil))),
+        .send (.mon (.mon (.asset "USD") 5)) (.src (.acct (.acct "world") .none))
+          (.allot (.cons (.const ⟨2, 4⟩) (.to (.acct (.acct "c"))) (.cons .remaining .kept .nil)))]⟩
+
+example : Script.frag exAllot := ⟨by simp [exAllot], by intro s hs; simp [exAllot] at hs; rcases hs with rfl | rfl <;> decide⟩
+
+example : (match compile exAllot with
+    | .ok prog => (match VM.run prog ⟨[], []⟩ exStore with | .ok r => some (r.obs, prog.resources.filter (fun r => r.bty == .portion)) | _ => none)
+    | .error _ => none) =
+    some (⟨[⟨"world", "a", 4, "USD"⟩, ⟨"world", "b", 3, "USD"⟩, ⟨"world", "c", 3, "USD"⟩], [], [], []⟩,
+      [.const .remaining, .const (.portion ⟨1, 2⟩)]) := by decide +kernel
+
+example : ((Num.run exAllot ⟨[], []⟩ exStore).map Num.Result.obs).toOption =
+    some ⟨[⟨"world", "a", 4, "USD"⟩, ⟨"world", "b", 3, "USD"⟩, ⟨"world", "c", 3, "USD"⟩], [], [], []⟩ := by decide +kernel
+
+/-! … and a source allotment: one third from `@b`, the rest from an ordered source with a capped overdraft -/
+def exSrcAllot : Script :=
+  ⟨[], [.send (.mon (.mon (.asset "USD") 9))
+          (.allot [(.const ⟨1, 3⟩, .acct (.acct "b") .none),
+            (.remaining, .inorder (.cons (.maxed (.mon (.asset "USD") 2) (.acct (.acct "c") (.upTo (.mon (.asset "USD") 5))))
+              (.cons (.acct (.acct "world") .none) .nil)))])
+          (.acct (.acct "alice"))]⟩
+
+example : Script.frag exSrcAllot := ⟨by simp [exSrcAllot], by intro s hs; simp [exSrcAllot] at hs; subst hs; decide⟩
+
+example : (match compile exSrcAllot with
+    | .ok prog => (match VM.run prog ⟨[], []⟩ exStore with | .ok r => some r.obs | _ => none)
+    | .error _ => none) =
+    some ⟨[⟨"b", "alice", 3, "USD"⟩, ⟨"c", "alice", 2, "USD"⟩, ⟨"world", "alice", 4, "USD"⟩], [], [], []⟩ := by decide +kernel
+
+example : ((Num.run exSrcAllot ⟨[], []⟩ exStore).map Num.Result.obs).toOption =
+    some ⟨[⟨"b", "alice", 3, "USD"⟩, ⟨"c", "alice", 2, "USD"⟩, ⟨"world", "alice", 4, "USD"⟩], [], [], []⟩ := by decide +kernel
+
+/-! non-vacuity of `compile_correct` beyond `Script.frag`: portion literals as metadata / printed values, one of
+them (`2/4`) de-duplicated against the other (`1/2`); what is stored is the same text on both sides -/
+def exPortion : Script :=
+  ⟨[], [.setTxMeta "p" (.portion ⟨1, 2⟩), .print (.portion ⟨2, 4⟩), .setAccountMeta (.acct "a") "q" (.portion ⟨2, 4⟩)]⟩
+
+example : exPortion.wellFormed := ⟨by simp [exPortion], by intro s hs; simp [exPortion] at hs; rcases hs with rfl | rfl | rfl <;> decide⟩
+
+example : (match compile exPortion with
+    | .ok prog => (match VM.run prog ⟨[], []⟩ exStore with | .ok r => some (r.obs, prog.resources.filter (fun r => r.bty == .portion)) | _ => none)
+    | .error _ => none) =
+    some (⟨[], [("p", "1/2")], [("a", "q", "1/2")], ["1/2"]⟩, [.const (.portion ⟨1, 2⟩)]) := by decide +kernel
+
+example : ((Num.run exPortion ⟨[], []⟩ exStore).map Num.Result.obs).toOption =
+    some ⟨[], [("p", "1/2")], [("a", "q", "1/2")], ["1/2"]⟩ := by decide +kernel
 
 /-- invariant of the cache: every entry is the compilation of some text with that digest -/
 def CacheInv {Text Key Prog : Type} (H : Text → Key) (compile : Text → Option Prog) (c : Cache.Store Key Prog) : Prop :=
@@ -274,9 +430,31 @@ theorem rejected_not_run_text (t : String) (P : Script) (req : Request) (store :
   rw [text_runs_its_tree t P req store h]
   exact rejected_not_run P req store hc
 
+/-- what the front end accepts satisfies the side conditions of `compile_correct` — for a text shorter than 2^64
+characters (every list of the syntax tree is then shorter than 2^64; the parser builds no portion literal with a
+zero denominator; the grammar requires a statement) -/
+theorem front_wellFormed (t : String) (P : Script) (h : front t = some P) (hlen : t.toList.length < 18446744073709551616) :
+    P.wellFormed :=
+  Num.front_wellFormed (by unfold front at h; exact h) hlen
+
+/-- **compiled programs do what the source TEXT says**: for every text the front end accepts (shorter than 2^64
+characters) and the compiler accepts, every variable map and every store, running the compiled bytecode on the VM
+yields exactly the observations — or the error class — of `runText` (= lex, parse, `Spec.run`).  No hypothesis on
+the syntax tree is left. -/
+theorem compile_correct_text (t : String) (P : Script) (h : front t = some P) (hlen : t.toList.length < 18446744073709551616)
+    (prog : Program) (hc : compile P = .ok prog) (req : Request) (store : Store) :
+    (VM.run prog req store).map VM.Result.obs = VM.Outcome.ofExcept ((runText t req store).map Num.Result.obs) := by
+  rw [text_runs_its_tree t P req store h]
+  exact compile_correct P prog hc (front_wellFormed t P h hlen) req store
+
 /-! non-vacuity: a rejected and an accepted text -/
 example : front "fail fail" = none := by decide
 example : (front "save [USD 1] from @a").isSome = true := by decide
+/-- the hypotheses of `compile_correct_text` are satisfiable (larger texts: the front-end differential) -/
+example : ∃ P, front "save [USD 1] from @a" = some P ∧ "save [USD 1] from @a".toList.length < 18446744073709551616 := by
+  have h : (front "save [USD 1] from @a").isSome = true := by decide
+  obtain ⟨P, hP⟩ := Option.isSome_iff_exists.mp h
+  exact ⟨P, hP, by decide⟩
 example : ∃ e, lex "fail #" = .error e := ⟨⟨1⟩, by rfl⟩
 
 end C08
